@@ -121,6 +121,17 @@ func runImgSym(sc M) {
 			bad = append(bad, "verify-after-foreign-entry: a valid signature behind another signature entry is not found ("+r2+")")
 		}
 	}
+	// bytes appended behind the certificate table are part of the file being verified but of no signature
+	if r == "true" {
+		for _, extra := range []int{8, 64, 3} {
+			ext := append(append([]byte{}, file...), prbytes("appended", extra)...)
+			if rr := verify("appended", ext); rr == "true" || rr == "true+error" {
+				bad = append(bad, fmt.Sprintf("appended: the image with %d bytes appended after the certificate table still verifies", extra))
+				break
+			}
+		}
+		delete(results, "appended")
+	}
 	// covered-byte flips of an image that verifies: no flip may leave it verifying
 	nfl := 0
 	if r == "true" && sc["flips"] != nil {
